@@ -50,3 +50,22 @@ Print Assumptions C13_keyauth_complete.
 Theorem C13_extract_present : forall l keys k, extract l = inl keys -> In k keys -> present l k.
 Proof. exact extract_present. Qed.
 Print Assumptions C13_extract_present.
+
+(* ---- tie to the source by proof: the request handler (innermost closure) of KeyAuthWithConfig, translated statement by
+   statement from middleware/key_auth.go on every run (Gen/Src_keyauth.v, language Base/GoLoop.v: nested `for range` loops with
+   `continue`, slices as values, calls whose results are a fixed function of their arguments for one request), behaves like the
+   model's [key_auth] the theorems above are about - for EVERY list of lookups with whatever they find and EVERY validator
+   (default error handling: no ErrorHandler): the keys handed to the validator, in order, are the model's calls; next is called
+   exactly when the model says Ran; and the closure returns the result of next (200), 401 or 400 as the model's outcome says.
+   An extractor, for one request, is what it finds ([ext_val]: the keys of [extract l], or its error). *)
+From Coq Require Import String ZArith.
+From Echo Require Import Base.GoLoop Gen.Src_keyauth Mw.KeyAuthSrc.
+
+Theorem C13_source_keyauth_handler : forall validator ls,
+  let '(st', ret) := GoLoop.run ksym (kpred validator) src_key_auth_handler_results src_key_auth_handler (start ls) in
+  let '(o, calls) := key_auth validator ls in
+  vkeys_of (events st') = calls /\
+  called_next st' = (match o with Ran => true | Rejected _ => false end) /\
+  ret = [VZ (match o with Ran => 200 | Rejected c => Z.of_nat c end)%Z].
+Proof. exact src_key_auth_handler_spec. Qed.
+Print Assumptions C13_source_keyauth_handler.
